@@ -115,6 +115,9 @@ func (t *Tree) fsCoq(d *dumper) (string, map[string]*ast.Taskfile, error) {
 	parsed := map[string]*ast.Taskfile{}
 	names := map[string]bool{}
 	for _, p := range t.Order {
+		if !strings.HasSuffix(p, ".yml") {
+			continue // not a Taskfile
+		}
 		tf, err := parseStandalone(filepath.Join(t.Root, p))
 		if err != nil {
 			return "", nil, fmt.Errorf("%s: %w", p, err)
@@ -282,7 +285,11 @@ func compiledDigest(e *task.Executor, d *dumper) []string {
 	for name := range e.Taskfile.Tasks.Keys(nil) {
 		var line string
 		res := guard(func() error {
-			ct, err := e.FastCompiledTask(&task.Call{Task: name})
+			// full compilation first (it evaluates the dynamic variables in the directory stamped on them)
+			ct, err := e.CompiledTask(&task.Call{Task: name})
+			if err != nil {
+				ct, err = e.FastCompiledTask(&task.Call{Task: name})
+			}
 			if err != nil {
 				line = name + " !" + d.path(err.Error())
 				return nil
@@ -301,7 +308,7 @@ func compiledDigest(e *task.Executor, d *dumper) []string {
 			var vs []string
 			for k, v := range ct.Vars.All() {
 				switch k {
-				case "SHARED", "IV0", "IV1", "TV", "CV", "DV", "E", "TASK", "TASK_DIR", "TASKFILE":
+				case "SHARED", "IV0", "IV1", "TV", "CV", "DV", "E", "TASK", "TASK_DIR", "TASKFILE", "WHERE", "WHO", "DYN", "TC":
 					vs = append(vs, k+"="+fmt.Sprint(v.Value))
 				default:
 					if strings.HasPrefix(k, "G") && len(k) == 2 {
@@ -310,7 +317,15 @@ func compiledDigest(e *task.Executor, d *dumper) []string {
 				}
 			}
 			sort.Strings(vs)
-			line = d.path(name + " dir=" + ct.Dir + " cmds=" + strings.Join(parts, ";") + " vars=" + strings.Join(vs, ","))
+			var idirs []string
+			if ot, ok := e.Taskfile.Tasks.Get(name); ok && ot != nil {
+				for k, v := range ot.IncludedTaskfileVars.All() {
+					if v.Dir != "" {
+						idirs = append(idirs, k+"@"+v.Dir)
+					}
+				}
+			}
+			line = d.path(name + " dir=" + ct.Dir + " cmds=" + strings.Join(parts, ";") + " vars=" + strings.Join(vs, ",") + " itvdirs=" + strings.Join(idirs, ","))
 			return nil
 		})
 		if res.panic != "" {
